@@ -27,6 +27,7 @@ MAX_VIOLATION_LINES = 20
 DRIVER_PROCS = 8
 CHUNK = 40              # histories per driver process
 TLC_EVENTS = 40000      # events per TLC validation run
+CHILD_TIMEOUT_S = 20    # watchdog per process lifetime of a history (a normal one takes ~0.1 s)
 ALL_HI = 1000000
 REOPEN_FLAVOURS = [("clean", "same"), ("clean", "new"), ("killed", "new")]
 OBS = ("read_vote", "read_committed", "get_log_state", "get_entries", "load_peers")
@@ -444,7 +445,7 @@ def run_histories(binp, behs, tag="c21"):
         with open(inp, "w") as f:
             for b in chunk:
                 f.write(json.dumps({"id": b["id"], "ops": b["ops"]}) + "\n")
-        rc, o = C.sh([binp, "run", "--in", inp, "--out", out, "--dir", os.path.join(d, "data"), "--timeout-s", "60"],
+        rc, o = C.sh([binp, "run", "--in", inp, "--out", out, "--dir", os.path.join(d, "data"), "--timeout-s", str(CHILD_TIMEOUT_S)],
                      timeout=3600, env={"WALRUS_QUIET": "1"})
         if rc != 0:
             raise C.ToolError("logstore-driver run failed (rc=%d):\n%s" % (rc, o[-2000:]))
@@ -606,6 +607,13 @@ def classify(events, index):
     expected, predicted = None, None
     if ev in ("panic", "hang", "died"):
         div["kind"] = ev
+        opens = sum(1 for x in events[:index] if x.get("ev") == "open" or (x.get("ev") == "reopen" and x.get("proc") == "new"))
+        if ev == "panic":
+            div["during"] = e.get("in")
+        elif e.get("seg") is not None and opens == e.get("seg"):
+            div["during"] = "open"      # the process lifetime never got past opening the store
+        else:
+            div["during"] = "call"
     elif ev in ("open", "reopen"):
         div["kind"] = "reopen_failed" if e.get("res") != "ok" else "reopen_unmatched"
     elif ev in OBS:
@@ -858,8 +866,11 @@ def c21_histories(tier, seed):
     return behs, info
 
 
-def c21_run(tier, binp, behs, findings, pid="C21"):
-    traces = run_histories(binp, behs)
+def c21_run(tier, binp, behs, findings, pid="C21", traces=None):
+    traces = dict(traces or {})
+    todo = [b for b in behs if b["id"] not in traces]
+    if todo:
+        traces.update(run_histories(binp, todo))
     verd, stats = validate(traces)
     byid = {b["id"]: b for b in behs}
     known, violations, drift = {}, [], 0
@@ -904,7 +915,16 @@ def c21(tier):
     cex_ops = concretize(defect["cex"], rng)
     behs, geninfo = c21_histories(tier, C.seed())
     behs.insert(0, {"id": "tlc_shortest_cex", "ops": cex_ops, "src": "tlc_cex", "guarded": False})
-    traces, verd, stats, known, violations, drift, rejected, rej_guarded = c21_run(tier, binp, behs, findings)
+    # probe: the counterexample and the committed corpus first; if the store hangs on most of them the bulk is
+    # skipped (every hung process lifetime costs its watchdog), the violations are reported from the probe
+    probe = [b for b in behs if b["src"] in ("tlc_cex", "corpus")]
+    ptraces = run_histories(binp, probe, tag="c21probe")
+    hung = sum(1 for t in ptraces.values() if any(e.get("ev") == "hang" for e in t))
+    bulk_skipped = hung * 2 >= len(probe)
+    if bulk_skipped:
+        C.log("[C21] %d of %d probe histories hang: generated corpus skipped" % (hung, len(probe)))
+        behs = probe
+    traces, verd, stats, known, violations, drift, rejected, rej_guarded = c21_run(tier, binp, behs, findings, traces=ptraces)
     byid = {b["id"]: b for b in behs}
     cex_confirmed = not verd["tlc_shortest_cex"]["ok"]
     if not cex_confirmed:
@@ -916,7 +936,7 @@ def c21(tier):
     violations.sort(key=lambda x: (x[1]["n_ops"], len(traces[x[0]]), x[0]))
     lines, seen_sig = [], set()
     for g, div, diag in violations:
-        sig = (div["kind"], div["first_bad"], div["reopens"], div.get("explained_by_consumed_replay"))
+        sig = (div["kind"], div["first_bad"], div["reopens"], div.get("explained_by_consumed_replay"), div.get("during"))
         if sig in seen_sig or len(lines) >= MAX_VIOLATION_LINES:
             continue
         seen_sig.add(sig)
@@ -971,7 +991,7 @@ def c21(tier):
         "guarded_histories": sum(1 for b in behs if b.get("guarded")),
         "histories_with_2plus_reopens": sum(1 for b in behs if n_reopens(b["ops"]) >= 2),
         "midcall_kills_that_hit_a_running_call": sum(1 for t in traces.values() if any(e.get("ev") == "inflight" for e in t)),
-        "model_drift": drift, "selftest": st,
+        "model_drift": drift, "selftest": st, "generated_corpus_skipped_because_probe_hangs": bulk_skipped,
         "known_findings_seen": {k: v["count"] for k, v in known.items()},
         "minimal_failing_history": minimal,
         "peer_slice_lines": binfo.get("peer_slice_lines"),
@@ -1046,7 +1066,10 @@ def sm_case_from_hist(cid, hist, app, rng):
         elif o["op"] == "build":
             ops.append({"op": "build", "n": o["n"]})
         elif o["op"] == "install":
-            ops.append({"op": "install", "m": o["m"], "from": o["from"]})
+            x = {"op": "install", "m": o["m"], "from": o["from"]}
+            if o.get("corrupt"):
+                x["corrupt"] = True
+            ops.append(x)
     # afterwards: the same subsequent commands on both
     n = len(entries)
     ops += [{"op": "apply", "n": "A", "k": n}, {"op": "apply", "n": "B", "k": n}]
@@ -1079,7 +1102,10 @@ def sm_random_case(cid, rng, app):
         ops += [{"op": "apply", "n": "A", "k": x} for x in _split(j, rng)]
     if k:
         ops += [{"op": "apply", "n": "B", "k": x} for x in _split(k, rng)]
-    ops += [{"op": "build", "n": "A"}, {"op": "install", "m": "B", "from": "A"}]
+    ops += [{"op": "build", "n": "A"}]
+    if rng.random() < 0.3:
+        ops += [{"op": "install", "m": "B", "from": "A", "corrupt": True}]
+    ops += [{"op": "install", "m": "B", "from": "A"}]
     ops += [{"op": "apply", "n": "A", "k": n}, {"op": "apply", "n": "B", "k": n}]
     return {"id": cid, "app": app, "entries": entries, "ops": ops}
 
@@ -1121,6 +1147,15 @@ def sm_judge(case, res):
                      "snapshot_is_adapter_map": bool(src) and not src["res"]["equals_app_snapshot"]
                      and src["res"]["bytes_hex"] == "00" * 8,
                      "sender_state_empty": bool(src) and src["view"]["app"] == ref[0]}
+            if op.get("corrupt"):
+                before = res["steps"][si - 1]["views"][op["m"]] if si > 0 else None
+                now = views[op["m"]]
+                if r.get("res") == "ok":
+                    return dict({"kind": "corrupt_snapshot_accepted"}, **attrs), drift
+                if before is not None and any(now[k] != before[k] for k in ("app", "last_applied", "membership")):
+                    return dict({"kind": "failed_install_changed_state",
+                                 "changed": [k for k in ("app", "last_applied", "membership") if now[k] != before[k]]}, **attrs), drift
+                continue
             if r.get("res") != "ok":
                 return dict({"kind": "install_failed", "err": (r.get("err") or "")[:120]}, **attrs), drift
             got, want = views[op["m"]], src["view"]
@@ -1133,7 +1168,7 @@ def sm_judge(case, res):
                 if call.get("res") == "ok" and call.get("responses") != call["to"] - call["from"] + 1:
                     drift.append("apply forwarded %d responses for entries %d..%d" % (call.get("responses"), call["from"], call["to"]))
         # every node's application state is the one determined by the entries it has applied
-        for name, v in views.items():
+        for name, v in views.items():  # (a failed corrupt install changed nothing, checked above)
             i = _idx(v)
             if i < len(ref) and v["app"] != ref[i]:
                 return {"kind": "diverged_after_same_commands" if any(s["op"]["op"] == "install" for s in res["steps"][:si + 1])
@@ -1146,7 +1181,7 @@ def sm_judge(case, res):
     return None, drift
 
 
-def sm_selftest():
+def sm_selftest(thorough=False):
     ok_view = {"app": {"x": 1}, "last_applied": [{"t": 1, "n": 1, "i": 1}], "membership": {}}
     empty = {"app": {"x": 0}, "last_applied": [], "membership": {}}
     build = {"res": "ok", "len": 10, "bytes_hex": "aa", "equals_app_snapshot": True, "current_snapshot_matches": True}
@@ -1162,27 +1197,46 @@ def sm_selftest():
     bad2["steps"][2]["res"] = {"res": "err", "err": "boom"}
     bad3 = copy.deepcopy(good)
     bad3["steps"][2]["views"]["B"] = dict(ok_view, last_applied=[])
-    for name, b in (("app_changed", bad), ("install_err", bad2), ("last_applied_changed", bad3)):
+    # a damaged snapshot must be refused without touching the node (restore before advance)
+    cor = copy.deepcopy(good)
+    cor["steps"][2] = {"op": {"op": "install", "m": "B", "from": "A", "corrupt": True}, "res": {"res": "err", "err": "x"},
+                       "views": {"A": ok_view, "B": empty}}
+    if sm_judge(None, cor)[0] is not None:
+        raise C.ToolError("C20 adapter self-test: a refused damaged snapshot was judged divergent")
+    bad4 = copy.deepcopy(cor)
+    bad4["steps"][2]["views"]["B"] = dict(empty, last_applied=[{"t": 1, "n": 1, "i": 1}])
+    bad5 = copy.deepcopy(cor)
+    bad5["steps"][2]["res"] = {"res": "ok"}
+    for name, b in (("app_changed", bad), ("install_err", bad2), ("last_applied_changed", bad3),
+                    ("failed_install_advanced_last_applied", bad4), ("corrupt_accepted", bad5)):
         if sm_judge(None, b)[0] is None:
             raise C.ToolError("C20 adapter self-test: corrupted execution '%s' was accepted" % name)
-    return {"mutants_rejected": 3}
+    out = {"mutants_rejected": 5}
+    if thorough:
+        # vacuity guard: the model's contract must still reject the defective adapter (the code before /repo c0348bc)
+        d1 = mc_check("MC_RaftSM.tla", "MC_RaftSM_defect.cfg", SM_DEPS, "sm_defect", workers=1, expect="violation")
+        d2 = mc_check("MC_RaftSM.tla", "MC_RaftSM_defect_kv.cfg", SM_DEPS, "sm_defect_kv", workers=1, expect="violation")
+        out["defective_adapter_models_rejected"] = {d1["cfg"]: d1["violated"], d2["cfg"]: d2["violated"]}
+        out["defective_adapter_counterexamples"] = {d1["cfg"]: d1["cex"], d2["cfg"]: d2["cex"]}
+    return out
 
 
 def c20_adapter_half_run(tier):
     """Returns (exit code, coverage dict, violations list) so that the state-machine half can be combined."""
     pid = "C20"
-    st = sm_selftest()
+    thorough = tier == "thorough"
+    st = sm_selftest(thorough)
     binp, binfo = build_driver()
     findings = C.load_findings()
-    thorough = tier == "thorough"
     mc = mc_check("MC_RaftSM.tla", "MC_RaftSM_%s.cfg" % ("thorough" if thorough else "quick"), SM_DEPS,
                   "sm_%s" % tier, stutter_actions=("MCGetSnap",))
-    defect = mc_check("MC_RaftSM.tla", "MC_RaftSM_defect.cfg", SM_DEPS, "sm_defect", workers=1, expect="violation")
-    defect_kv = mc_check("MC_RaftSM.tla", "MC_RaftSM_defect_kv.cfg", SM_DEPS, "sm_defect_kv", workers=1, expect="violation")
     hs, gi = tlc_histories("MC_RaftSM.tla", "MC_RaftSM_gen.cfg", SM_DEPS, "sm_gen")
     rng = random.Random(C.seed() * 104729 + 20)
-    cases = [sm_case_from_hist("tlc_shortest_cex_metadata", defect["cex"], "metadata", rng),
-             sm_case_from_hist("tlc_shortest_cex_kv", defect_kv["cex"], "kv", rng)]
+    # regression: the shortest counterexamples of the defective adapter models (must conform now)
+    cases = [sm_case_from_hist("regress_defect_cex_metadata", [{"op": "build", "n": "A"}, {"op": "install", "m": "B", "from": "A"}],
+                               "metadata", rng),
+             sm_case_from_hist("regress_defect_cex_kv", [{"op": "commit", "e": {"k": "normal", "c": 1}}, {"op": "apply", "n": "A", "k": 1},
+                                                         {"op": "build", "n": "A"}, {"op": "install", "m": "B", "from": "A"}], "kv", rng)]
     for b in load_corpus("C20_adapter"):
         cases.append({"id": "corpus_" + b["id"], "app": b.get("app", "metadata"), "entries": b["entries"], "ops": b["ops"]})
     n_t = 3000 if thorough else 400
@@ -1223,10 +1277,6 @@ def c20_adapter_half_run(tier):
             rec["count"] += 1
         else:
             violations.append((c, r, div))
-    cex_confirmed = {cid: sm_judge(None, results[cid])[0] is not None for cid in ("tlc_shortest_cex_metadata", "tlc_shortest_cex_kv")}
-    for cid, okc in cex_confirmed.items():
-        if not okc:
-            print("MODEL-DRIFT: MC_RaftSM predicts a C20 violation for %s but the real adapter conformed" % cid)
     for d, n in sorted(drift_notes.items()):
         print("MODEL-DRIFT: %s (%d time(s))" % (d, n))
     violations.sort(key=lambda x: (len(x[0]["entries"]), len(x[0]["ops"]), x[0]["id"]))
@@ -1238,9 +1288,7 @@ def c20_adapter_half_run(tier):
         seen.add(sig)
         path = C.save_replay(pid, "C20_adapter_%s_%s" % (c["id"], div["kind"]), {
             "property": pid, "half": "adapter", "case": c, "divergence": div, "execution": r,
-            "code_location": "octopii/src/openraft/storage.rs:257-294 (build_snapshot serialises StateMachineData.data, a map "
-                             "nothing writes) and :353-388 (install_snapshot re-serialises that map and passes it to the "
-                             "application's restore())",
+            "code_location": "octopii/src/openraft/storage.rs: build_snapshot / install_snapshot / apply of MemStateMachine",
             "rerun": "./check C20 --replay <this file>"})
         lines.append((path, div))
     for fid, rec in sorted(known.items()):
@@ -1259,16 +1307,15 @@ def c20_adapter_half_run(tier):
         "evaluations": len(cases),
         "distinct_nontrivial": len(set(json.dumps([c["app"], c["entries"], c["ops"]], sort_keys=True) for c in cases
                                        if any(o["op"] == "install" for o in c["ops"]) and c["entries"])),
-        "rule": "cases = shortest counterexamples of MC_RaftSM + TLC-generated histories (one per distinct state reached by an "
-                "install, sampled with VERIF_SEED) + seeded random cases (apply prefix on A, fresh or lagging B, build, install, "
-                "same remaining commands on both); executed on the real MemStateMachine adapter with the real Metadata (3/4) or "
-                "KvStateMachine (1/4); after every operation every node's full application state must equal the state of the "
-                "application alone after the same entry prefix, install must succeed and carry lastApplied/membership; "
+        "rule": "cases = committed regression corpus + TLC-generated histories of MC_RaftSM (one per distinct state reached by an "
+                "install, sampled with VERIF_SEED) + seeded random cases (apply prefix on A, fresh or lagging B, build, optionally "
+                "a damaged transfer, install, same remaining commands on both); executed on the real MemStateMachine adapter with "
+                "the real Metadata (3/4) or KvStateMachine (1/4); after every operation every node's full application state must "
+                "equal the state of the application alone after the same entry prefix, install must succeed and carry "
+                "lastApplied/membership, a damaged snapshot must be refused without changing the node; "
                 "distinct = distinct cases with >= 1 entry and an install",
         "adapter_model": mc,
-        "adapter_model_defect": {k: defect[k] for k in ("cfg", "states", "transitions", "violated", "depth", "cex")},
-        "adapter_model_defect_kv": {k: defect_kv[k] for k in ("cfg", "states", "transitions", "violated", "depth", "cex")},
-        "counterexamples_confirmed_on_real_code": cex_confirmed,
+        "corrupt_installs": sum(1 for c in cases for o in c["ops"] if o.get("corrupt")),
         "generation": gi, "cases_with_install": with_install, "diverged_cases": diverged,
         "model_drift": drift_notes, "selftest": st, "known_findings_seen": {k: v["count"] for k, v in known.items()},
         "minimal_failing_case": minimal,
@@ -1309,6 +1356,49 @@ def replay_c20_adapter(path):
     return C.EXIT_VIOLATION
 
 
-REGISTRY = {"C21": c21}
+def c20(tier):
+    """C20 = state-machine half (props_pure.c20_statemachine_half: Metadata snapshot/restore) + adapter half
+    (c20_adapter_half_run: the octopii adapter with the real Metadata). Both halves print their own lines;
+    ONE evidence file evidence/C20.json; 1 if either half found a violation, ToolError (exit 2) otherwise."""
+    t0 = time.time()
+    from . import props_pure as PP
+    rc_sm = PP.c20_statemachine_half(tier)          # writes evidence/C20_statemachine_half.json
+    if rc_sm not in (C.EXIT_OK, C.EXIT_VIOLATION):
+        raise C.ToolError("C20 state-machine half returned %r" % rc_sm)
+    sm_path = os.path.join(C.EVID, "C20_statemachine_half.json")
+    try:
+        with open(sm_path) as f:
+            sm_ev = json.load(f)
+    except (OSError, ValueError) as e:
+        raise C.ToolError("C20: cannot read the state-machine half's evidence %s: %s" % (sm_path, e))
+    if sm_ev.get("tier") != tier or sm_ev.get("seed") != C.seed():
+        raise C.ToolError("C20: %s is not from this run (tier %s seed %s)" % (sm_path, sm_ev.get("tier"), sm_ev.get("seed")))
+    rc_ad, ad_cov, ad_lines = c20_adapter_half_run(tier)
+    sm_cov = sm_ev["coverage"]
+
+    def total(k):
+        return int(sm_cov.get(k, 0) or 0) + int(ad_cov.get(k, 0) or 0)
+
+    coverage = {
+        "states": total("states"), "transitions": total("transitions"),
+        "traces_validated_against_impl": total("traces_validated_against_impl"),
+        "evaluations": total("evaluations"), "distinct_nontrivial": total("distinct_nontrivial"),
+        "samples": list(sm_cov.get("samples", []))[:2] + list(ad_cov.get("samples", []))[:2],
+        "rule": "state-machine half: " + str(sm_cov.get("rule")) + " || adapter half: " + str(ad_cov.get("rule"))
+                + " || states/transitions = sums over the TLC runs of both halves (MC_Metadata, MC_RaftSM); "
+                  "traces/evaluations = totals of both halves",
+        "statemachine_half": sm_cov, "adapter_half": ad_cov,
+        "violations_by_half": {"statemachine_half": sm_ev.get("violations", 0), "adapter_half": len(ad_lines)},
+    }
+    assumptions = list(sm_ev.get("assumptions", []))
+    for a in C20_ASSUMPTIONS:
+        if a not in assumptions:
+            assumptions.append(a)
+    nviol = int(sm_ev.get("violations", 0) or 0) + len(ad_lines)
+    C.write_evidence("C20", tier, "model_checking", coverage, time.time() - t0, assumptions=assumptions, violations=nviol)
+    return C.EXIT_VIOLATION if (rc_sm == C.EXIT_VIOLATION or rc_ad == C.EXIT_VIOLATION) else C.EXIT_OK
+
+
+REGISTRY = {"C21": c21, "C20": c20}
 PARTIAL = {"C20": c20_adapter_half}
 REPLAY = {"C21": replay_c21, "C20": replay_c20_adapter}
